@@ -783,6 +783,33 @@ fn f_c01(x: &str, c: &Cfg, ctx: &mut Ctx) {
     let out = ctx.fmt(c, x);
     o::c01(x, &out, c, ctx);
 }
+/// a trailing line comment in every gap of the d<=2 programs, the next line indented by three blanks or not at all
+fn c08_trailing_comments(g: &Arc<Grammar>, d: usize, cfgs: &[Cfg]) -> Box<dyn Family> {
+    pf(
+        "c08eof:trailing-line-comment-in-every-gap",
+        g,
+        d,
+        cfgs,
+        Box::new(move |_g, toks, c, ctx| {
+            use crate::layout::{self, Base};
+            let l0 = layout::base_gaps(toks, Base::L0);
+            let frozen = layout::frozen_gaps(toks);
+            let mut first = true;
+            for i in 1..toks.len() {
+                if frozen[i] {
+                    continue;
+                }
+                for p in [2usize, 3] {
+                    if !first {
+                        ctx.sub_eval();
+                    }
+                    first = false;
+                    f_c08_eof(&layout::with_comment(toks, &l0, i, 2, p), c, ctx);
+                }
+            }
+        }),
+    )
+}
 fn f_c08_eof(x: &str, c: &Cfg, ctx: &mut Ctx) {
     let out = ctx.fmt(c, x);
     o::c08(x, &out, c, &o::C08Opts { eof_clause: true }, ctx);
@@ -1492,6 +1519,7 @@ pub fn families(check: &str, tier: &str) -> Vec<Box<dyn Family>> {
                     tf("c08", Chars { n: 3 }, &C_QUICK[..2], or_c08(false)),
                     prog_variants("c08eof", &g(2), 2, &C_QUICK, vo_base, f_c08_eof),
                     prog_variants("c08eof", &g(1), 1, &C_QUICK[..3], vo_cd, f_c08_eof),
+                    c08_trailing_comments(&g(2), 2, &C_QUICK[..2]),
                     seed_texts("c08eof", &wf_seeds(), &C_QUICK, f_c08_eof),
                     tf("c08", lit_texts(2), &C_QUICK[..3], or_c08(false)),
                     tf("c08", soup(2, GAPS8, &["%", "begin % end"]), &C_QUICK[..3], or_c08(false)),
@@ -1730,6 +1758,11 @@ pub fn replay(case: &Value, ctx: &mut Ctx) -> bool {
             // a crash / hang met by the scaling family
             let sizes: Vec<usize> = case["sizes"].as_array().unwrap().iter().map(|v| v.as_u64().unwrap_or(1) as usize).collect();
             o::c04_scaling(case["kind"].as_u64().unwrap() as usize, &c, &sizes, ctx);
+        }
+        "c04" if case["cursor_list"].as_array().map_or(false, |a| !a.is_empty()) => {
+            use pasfmt_core::prelude::Cursor;
+            let mut cur: Vec<Cursor> = case["cursor_list"].as_array().unwrap().iter().map(|v| Cursor(v.as_u64().unwrap_or(0) as u32)).collect();
+            let _ = ctx.fmt_cursors(&c, &input, &mut cur);
         }
         "c04" => {
             let _ = ctx.fmt(&c, &input);
